@@ -922,7 +922,9 @@ pub fn layout(rng: &mut Rng, toks: &[Tok], fancy: bool) -> String {
 //    LANGUAGE.md uses `{ ... }` and `{}`; "`...` must be last" is an evaluation rule);
 //  * `results ::= type` only: the named result list of the EBNF was removed from WIT and is not
 //    implemented (documentation staleness, see DESIGN.md);
-//  * `borrow '<' id '>'` (a borrow names a resource).
+//  * `borrow '<' id '>'` (a borrow names a resource);
+//  * in `result<..>` the placeholder `_` may stand for either arm (`result<_>`, `result<T, _>`):
+//    the repository's own fixture tests/resolution/fail/missing-ok-result-type.wac relies on it.
 
 pub struct Rec<'a> {
     t: &'a [Tok],
@@ -1190,14 +1192,17 @@ impl<'a> Rec<'a> {
                 self.i += 1;
                 if self.is_sym("<") {
                     self.i += 1;
+                    // `_` may stand for either absent arm (see the deviations listed above)
                     if self.is_sym("_") {
                         self.i += 1;
-                        self.sym(",")?;
-                        self.ty()?;
                     } else {
                         self.ty()?;
-                        if self.is_sym(",") {
+                    }
+                    if self.is_sym(",") {
+                        self.i += 1;
+                        if self.is_sym("_") {
                             self.i += 1;
+                        } else {
                             self.ty()?;
                         }
                     }
